@@ -55,7 +55,9 @@ theorem C20_heartbeat_step (s : Sess) (h : C20Active s.st) :
     (loggedOn_connected _ hl)]
   refine ⟨rfl, ?_⟩
   simp only [hs.log]
-  simp [Sess.clearLog, numbered]
+  have hnum : ∀ x, numbered s.clearLog x = numbered s x := fun _ => rfl
+  rw [hnum]
+  simp [Sess.clearLog]
 
 theorem C20_no_heartbeat_while_pending_step (s : Sess) (h : C20Pending s.st) :
     (step s (.timeout .needHeartbeat)).1.st = s.st ∧ (step s (.timeout .needHeartbeat)).2.1 = [] ∧
@@ -78,7 +80,9 @@ theorem C20_test_request_step (s : Sess) (h : C20Active s.st) :
     (pendingOf_connected _ h)]
   refine ⟨rfl, ?_⟩
   simp only [Sess.emit, List.reverse_cons, hs.log]
-  simp [Sess.clearLog, numbered]
+  have hnum : ∀ x, numbered s.clearLog x = numbered s x := fun _ => rfl
+  rw [hnum]
+  simp [Sess.clearLog]
 
 /-- … and on the whole event (nothing buffered in the inbound channel — "nothing arrives"): the application is notified
     (`onLogout`), the store is reset if so configured, the connection is closed; no TestRequest, nothing else -/
@@ -158,7 +162,7 @@ theorem C20_testrequest_echo (s : Sess) (m : InMsg) (x : String) (hk : kindOf m 
     (hn : getInt m 34 = .val s.store.target) (hv : validate m = none) (hcb : callbackVerdict m = none)
     (hx : m.f.get? 112 = some x) :
     inSessionFixMsgIn s m =
-      (incrTarget (sendInReplyTo (s.emit (.fromAdmin "1" (seqText m))) (mkOut "0" [(112, x)])), .inSession) :=
+      (incrTarget (sendInReplyTo (s.emit (.fromAdmin "1" (seqText m))) ((mkOut "0" [(112, x)]).inReplyTo m)), .inSession) :=
   inSessionFixMsgIn_testRequest s m x hk hb hc ht hn hv hcb hx
 
 /-- in normal operation (also with a TestRequest of our own pending) that is the whole reaction … -/
@@ -168,7 +172,7 @@ theorem C20_testrequest_echo_inSession (s : Sess) (m : InMsg) (x : String) (hst 
     (hn : getInt m 34 = .val s.store.target) (hv : validate m = none) (hcb : callbackVerdict m = none)
     (hx : m.f.get? 112 = some x) :
     fixMsgInCore s m =
-      (incrTarget (sendInReplyTo (s.emit (.fromAdmin "1" (seqText m))) (mkOut "0" [(112, x)])), .inSession) := by
+      (incrTarget (sendInReplyTo (s.emit (.fromAdmin "1" (seqText m))) ((mkOut "0" [(112, x)]).inReplyTo m)), .inSession) := by
   have : fixMsgInCore s m = inSessionFixMsgIn s m := by rcases hst with h | h <;> simp [fixMsgInCore, h]
   rw [this]; exact C20_testrequest_echo s m x hk hb hc (Or.inr ht) hn hv hcb hx
 
@@ -180,7 +184,7 @@ theorem C20_testrequest_echo_recovery (s : Sess) (m : InMsg) (x : String) (stash
     (hn : getInt m 34 = .val s.store.target) (hv : validate m = none) (hcb : callbackVerdict m = none)
     (hx : m.f.get? 112 = some x) :
     fixMsgInCore s m =
-      resendBook (incrTarget (sendInReplyTo (s.emit (.fromAdmin "1" (seqText m))) (mkOut "0" [(112, x)]))) .inSession
+      resendBook (incrTarget (sendInReplyTo (s.emit (.fromAdmin "1" (seqText m))) ((mkOut "0" [(112, x)]).inReplyTo m))) .inSession
         stash cur fin m := by
   rw [fixMsgInCore_rec s m stash cur fin h, resendFixMsgIn_eq,
     C20_testrequest_echo s m x hk hb hc (Or.inl (by rw [h]; rfl)) hn hv hcb hx]
@@ -188,13 +192,13 @@ theorem C20_testrequest_echo_recovery (s : Sess) (m : InMsg) (x : String) (stash
 
 /-- the Heartbeat is numbered, stored and written after whatever was queued; the expected number is `T + 1` afterwards -/
 theorem C20_testrequest_echo_sent (s : Sess) (m : InMsg) (x : String) (hl : s.st.loggedOn = true) :
-    AdminSent (s.emit (.fromAdmin "1" (seqText m))) (mkOut "0" [(112, x)])
-      (sendInReplyTo (s.emit (.fromAdmin "1" (seqText m))) (mkOut "0" [(112, x)])) ∧
-    (incrTarget (sendInReplyTo (s.emit (.fromAdmin "1" (seqText m))) (mkOut "0" [(112, x)]))).store.target
+    AdminSent (s.emit (.fromAdmin "1" (seqText m))) ((mkOut "0" [(112, x)]).inReplyTo m)
+      (sendInReplyTo (s.emit (.fromAdmin "1" (seqText m))) ((mkOut "0" [(112, x)]).inReplyTo m)) ∧
+    (incrTarget (sendInReplyTo (s.emit (.fromAdmin "1" (seqText m))) ((mkOut "0" [(112, x)]).inReplyTo m))).store.target
       = s.store.target + 1 := by
-  have hs := adminSent (s.emit (.fromAdmin "1" (seqText m))) (mkOut "0" [(112, x)]) rfl rfl hl
+  have hs := adminSent (s.emit (.fromAdmin "1" (seqText m))) ((mkOut "0" [(112, x)]).inReplyTo m) rfl rfl hl
   refine ⟨hs, ?_⟩
-  show (sendInReplyTo (s.emit (.fromAdmin "1" (seqText m))) (mkOut "0" [(112, x)])).store.target + 1 = _
+  show (sendInReplyTo (s.emit (.fromAdmin "1" (seqText m))) ((mkOut "0" [(112, x)]).inReplyTo m)).store.target + 1 = _
   rw [hs.target]; rfl
 
 /-! ### arming the peer timer; the interval in force (`C20_arming`) -/
@@ -267,6 +271,15 @@ theorem C20_logon_arms (s : Sess) (m : InMsg) :
 /-! remark (D19 of the design notes): `C20_interval` holds for every value of 108, including 0 and negative ones — the
     acceptor then arms the peer timer with a non-positive duration -/
 #guard (step (demoUp {} "0") (.incomingMsg (some (demoIn {} "0" 2)))).2.1 == [.fromAdmin "0" "2", .incT, .armPeer 0]
+
+-- EnableLastMsgSeqNumProcessed: the Heartbeat answering TestRequest number 2 carries 369 = 2 (the message replied to), the
+-- TestRequest sent on the peer timer carries 369 = 1 (last inbound number consumed: the Logon); off ⇒ no tag
+#guard ((obsOf (demoUp { lastSeqProcessed := true }) [.timeout .peerTimeout, .incomingMsg (some (demoIn {} "1" 2 [(112, "abc")]))]).filterMap
+          fun o => match o with | .wire m => some (m.kind, m.seq, m.last) | _ => none)
+       == [("1", 2, some 1), ("0", 3, some 2)]
+#guard ((obsOf (demoUp {}) [.timeout .peerTimeout, .incomingMsg (some (demoIn {} "1" 2 [(112, "abc")]))]).filterMap
+          fun o => match o with | .wire m => some (m.kind, m.seq, m.last) | _ => none)
+       == [("1", 2, none), ("0", 3, none)]
 
 /-!
 Clause checklist (properties.jsonl C20 → theorems)
